@@ -203,6 +203,90 @@ def _flatten(v):
     return [v]
 
 
+# ------------------------------------------------------------------------------------------------ C14, assignments in a second stage
+# "When a node is assigned more than once ..." - also when the later assignment arrives in a second DIP instance that was
+# given the environment of the first (the documented two-stage use: DIP(env1)).
+
+def gen_c14_staged(rng):
+    dim = rng.choice(list(LIN))
+    (u0, f0), (u1, f1) = rng.sample(LIN[dim], 2)
+    other = rng.choice([d for d in LIN if d != dim])
+    return dict(edge='c14-staged', u0=u0, u1=u1, uo=LIN[other][0][0], x=rng.choice([1, 2.5, 40, 300]), y=rng.choice([0, 3, 0.5, 120, -7]),
+                what=rng.choice(['mod-other-unit', 'mod-other-unit', 'typed-other-unit', 'mod-no-unit', 'mod-twice', 'bool-false', 'str-empty',
+                                 'other-dtype', 'other-dimension', 'constant', 'constant-typed']),
+                grouped=rng.random() < 0.4, extra_node=rng.random() < 0.5)
+
+
+def run_c14_staged(c, ctx):
+    from scinumtools.dip import DIP
+    from scinumtools.dip.settings import Format
+    f = {u: k for d in LIN.values() for u, k in d}
+    u0, u1, x, y, what = c['u0'], c['u1'], float(c['x']), float(c['y']), c['what']
+    pre, ind, name = (['grp'], '  ', 'grp.w') if c['grouped'] else ([], '', 'w')
+    A = pre + ['%sw float = %r %s' % (ind, x, u0)]
+    if what.startswith('constant'):
+        A.append('%s  !constant' % ind)
+    A += ['flag bool = true', 'label str = "abc"']
+    B, exp, must_fail = [], {name: (x, u0), 'flag': (True, None), 'label': ('abc', None)}, False
+    if c['extra_node']:
+        B.append('later int = 5')
+        exp['later'] = (5, None)
+    if what == 'mod-other-unit':
+        B.append('%s = %r %s' % (name, y, u1)); exp[name] = (y * f[u1] / f[u0], u0)
+    elif what == 'typed-other-unit':
+        B.append('%s float = %r %s' % (name, y, u1)); exp[name] = (y * f[u1] / f[u0], u0)
+    elif what == 'mod-no-unit':
+        B.append('%s = %r' % (name, y)); exp[name] = (y, u0)
+    elif what == 'mod-twice':
+        B += ['%s = %r %s' % (name, y, u1), '%s = %r' % (name, x + 1)]; exp[name] = (x + 1, u0)
+    elif what == 'bool-false':
+        B.append('flag = false'); exp['flag'] = (False, None)
+    elif what == 'str-empty':
+        B.append('label = ""'); exp['label'] = ('', None)
+    elif what == 'other-dtype':
+        B.append('%s int = 3 %s' % (name, u0)); must_fail = True
+    elif what == 'other-dimension':
+        B.append('%s = 3 %s' % (name, c['uo'])); must_fail = True
+    elif what == 'constant':
+        B.append('%s = %r %s' % (name, y, u1)); must_fail = True
+    elif what == 'constant-typed':
+        B.append('%s float = %r %s' % (name, y, u0)); must_fail = True
+    tA, tB = '\n'.join(A) + '\n', '\n'.join(B) + '\n'
+    classes = ['edge:second-stage-assignment', 'edge:second-stage:' + what]
+    devs = []
+    st, env1, keep1 = parse(ctx, tA, 'e14sA')
+    sample = dict(stage_1=tA, stage_2=tB, expected='parse() of stage 2 must fail' if must_fail else {k: list(v) for k, v in exp.items()})
+    if st != 'ok':
+        devs.append(dev('second-stage:first-stage-rejected', dict(text=tA, exc=repr(env1)[:200])))
+        return outcome(classes=classes, nontrivial=True, fp='e14s ' + tA + tB, dev=devs, monitors={'edge_programs': 1}, sample=sample)
+    p2 = DIP(env1, name='e14sB_%d' % next(_n))
+    p2.add_string(tB)
+    try:
+        env2 = p2.parse()
+        st2 = 'ok'
+    except Exception as e:
+        env2, st2 = e, 'exc'
+    if must_fail:
+        if st2 == 'ok':
+            devs.append(dev('second-stage:illegal-assignment-accepted(%s)' % what, dict(stage_1=tA, stage_2=tB, data=repr(env2.data(Format.TUPLE))[:300])))
+    elif st2 != 'ok':
+        devs.append(dev('second-stage:legal-assignment-rejected(%s)' % what, dict(stage_1=tA, stage_2=tB, exc=repr(env2)[:200])))
+    else:
+        names = [n.name for n in env2.nodes.nodes]
+        d = env2.data(Format.TUPLE)
+        bad = {}
+        for k, (ev, eu) in exp.items():
+            o = d.get(k)
+            ov, ou = (o[0], o[1]) if isinstance(o, tuple) else (o, None)
+            same = (ov == ev and type(ov) == type(ev)) if isinstance(ev, (str, bool)) else (not isinstance(ov, (str, bool)) and ov is not None and close(ov, ev, 1e-9, 1e-12))
+            if k not in d or ou != eu or not same:
+                bad[k] = dict(observed=o, expected=(ev, eu))
+        if bad or sorted(names) != sorted(exp) or len(names) != len(set(names)):
+            devs.append(dev('second-stage:result-is-not-one-node-with-the-last-value-in-the-definition-unit(%s)' % what,
+                            dict(stage_1=tA, stage_2=tB, differing=bad, node_names=names)))
+    return outcome(classes=classes, nontrivial=True, fp='e14s ' + tA + tB, dev=devs, monitors={'edge_programs': 1, 'second_stage_programs': 1}, sample=sample)
+
+
 # ------------------------------------------------------------------------------------------------ C16
 
 def gen_c16(rng):
